@@ -442,7 +442,7 @@ def _spec_shrinks(sd):
       c.pop('default', None)
       c.pop('frozen', None)
       out.append(c)
-  if k == 'dict' and sd['fields']:
+  if k == 'dict' and sd['fields'] and len(sd['fields']) > 1:
     for i in range(len(sd['fields'])):
       c = copy.deepcopy(sd)
       c['fields'].pop(i)
@@ -557,11 +557,27 @@ def shrinks(d):
   if k in ('TD', 'TL'):
     out.append(['spec', d[1]])
     out.append(['v', d[2]])
+    # a nested typed container by itself
+    if k == 'TL' and d[1]['el']['k'] in ('dict', 'list'):
+      for x in d[2]:
+        if isinstance(x, dict if d[1]['el']['k'] == 'dict' else list):
+          out.append(['TD' if d[1]['el']['k'] == 'dict' else 'TL', d[1]['el'], x])
+    if k == 'TD' and d[1].get('fields'):
+      for n, fs in d[1]['fields']:
+        if fs['k'] in ('dict', 'list'):
+          for a, x in d[2].items():
+            if (a == n or n == '*') and isinstance(x, dict if fs['k'] == 'dict' else list):
+              out.append(['TD' if fs['k'] == 'dict' else 'TL', fs, x])
+    for sd in _spec_shrinks(d[1]):
+      if sd['k'] == d[1]['k'] and (k == 'TL' or sd.get('fields')):
+        out.append([k, sd, d[2]])
     if k == 'TD' and d[1].get('fields'):
       names = [n for n, _ in d[1]['fields'] if n != '*']
       for i, (n, _) in enumerate(d[1]['fields']):
         sd = copy.deepcopy(d[1])
         sd['fields'].pop(i)
+        sd.pop('default', None)
+        sd.pop('frozen', None)
         if not sd['fields']:
           continue
         v = {a: b for a, b in d[2].items() if (a != n if n != '*' else a in names)}
@@ -723,13 +739,14 @@ def kind(d, depth=0):
     return 'opaque-leaf'
   if k == 'sym':
     return d[1]
+  own = ''.join('+' + f for f in ('none', 'default', 'frozen') if k in ('TD', 'TL') and f in d[1])
   if k == 'TL':
-    return 'typed-root-List'
+    return 'typed-root-List' + own + '(' + kind(['spec', d[1]['el']])[5:] + ')'
   if k == 'TD':
     feats = sorted({('dynamic' if n == '*' else 'const') +
                     ''.join('+' + f for f in ('none', 'default', 'frozen') if f in fs)
                     for n, fs in (d[1].get('fields') or [])})
-    return 'typed-root-Dict(' + ','.join(feats) + ')'
+    return 'typed-root-Dict' + own + '(' + ','.join(feats) + ')'
   if k == 'spec':
     sd = d[1]
     flags = [f for f in ('none', 'default', 'frozen') if f in sd]
